@@ -77,6 +77,7 @@ struct Obs {
     rejected_epoch: u64,
     edge_cases: u64,
     wrap_region: u64,
+    or_die_checked: u64,
 }
 
 /// Checks one (local, base, voucher kind) triple.
@@ -114,8 +115,23 @@ fn check_triple(local: PrimitiveDateTime, base: u64, kind: VKind, salt: u64, obs
     if new_ok.is_ok() != check_ok {
         return Err(Fail { sig: "new-vs-check".into(), what: format!("new() and check() disagree ({})", describe()) });
     }
+    // The panicking constructor must draw the same line (sampled: on every
+    // edge case and on one triple in 32).
+    if on_edge || salt % 32 == 0 {
+        let died = catch(|| VouchedTime::new_or_die(local, base, voucher)).is_err();
+        if died == new_ok.is_ok() {
+            return Err(Fail {
+                sig: "new_or_die-vs-new".into(),
+                what: format!("new_or_die {} although new() {} ({})", if died { "panicked" } else { "returned a value" }, if new_ok.is_ok() { "succeeded" } else { "failed" }, describe()),
+            });
+        }
+        obs.or_die_checked += 1;
+    }
     match (new_ok, want) {
         (Ok(vt), true) => {
+            if catch(|| vt.check_or_die()).is_err() {
+                return Err(Fail { sig: "check_or_die".into(), what: format!("check_or_die() panicked on a value new() returned ({})", describe()) });
+            }
             let got = catch(|| vt.get_local_time()).map_err(|p| Fail { sig: format!("panic:{}", panic_sig(&p)), what: format!("get_local_time panicked: {}", p) })?;
             if got != local {
                 return Err(Fail { sig: "local-time".into(), what: format!("get_local_time() = {:?}, constructed from {:?}", got, local) });
@@ -320,6 +336,29 @@ pub fn run(ctx: &mut Ctx) {
                 (Err(e), true) => Err(Fail { sig: "now-rejects".into(), what: format!("now() failed ({}) with base-now={} and the right voucher", e, d) }),
             }
         })();
+        // now_or_die: dies exactly when now() fails (one case in three).
+        let verdict = verdict.and_then(|()| {
+            if r % 3 != 0 {
+                return Ok(());
+            }
+            let died = catch(|| {
+                VouchedTime::now_or_die(|now: OffsetDateTime| {
+                    if provider_fails {
+                        return Err(std::io::Error::new(std::io::ErrorKind::NotConnected, "harness provider failure"));
+                    }
+                    let now_ms = (now.unix_timestamp_nanos() / 1_000_000) as i128;
+                    let base = (now_ms + d) as u64;
+                    Ok((base, make_voucher(kind, base, 77)))
+                })
+            })
+            .is_err();
+            let want = !provider_fails && kind == VKind::Right && -d >= -BACK && -d <= FWD;
+            if died == want {
+                return Err(Fail { sig: "now_or_die".into(), what: format!("now_or_die {} with base-now={} voucher={:?} provider_fails={}", if died { "panicked" } else { "returned a value" }, d, kind, provider_fails) });
+            }
+            ctx.feature("vtime.now_or_die_cases");
+            Ok(())
+        });
         match verdict {
             Ok(()) => {
                 ctx.feature("vtime.now_cases");
@@ -344,4 +383,5 @@ fn record(ctx: &mut Ctx, obs: &Obs) {
     ctx.feature_n("vtime.rejected_before_epoch", obs.rejected_epoch);
     ctx.feature_n("vtime.window_or_epoch_edge_cases", obs.edge_cases);
     ctx.feature_n("vtime.base_within_70000_of_u64_max", obs.wrap_region);
+    ctx.feature_n("vtime.new_or_die_compared_with_new", obs.or_die_checked);
 }
